@@ -214,8 +214,11 @@ CLAIMS["C02"] = dict(
         "result substituted for the recursive call'; (3) C02_growth_terminates: with more fuel than positions left the loop "
         "never runs out of fuel; (4) about the generator (Proofs/GenDeco.v): whatever original rule it emits, a rule the analysis "
         "marked left-recursive is decorated @memoize_left_rec exactly when it is the chosen leader and @logger otherwise, and only "
-        "such leaders ever grow a seed. Examples show the hypotheses satisfiable and two growth steps with the left-nested tree on "
-        "a real module. Tie: K-gen (decorator choice incl. helper rules) and K-run with event traces through growth. On the "
+        "such leaders ever grow a seed; (5) the property's own example as a theorem (Proofs/GrowAxb.v): on every module whose "
+        "method a is the one emitted for  a: a 'x' | 'b'  -- for every number of x tokens, every following token and every "
+        "sufficient fuel -- the rule returns the left-nested tree of  b x*  and stops after the last x, and refuses any input not "
+        "starting with b (instance: that method is, as rendered text, the method a of the real generator's output). Examples show "
+        "the hypotheses satisfiable. Tie: K-gen (decorator choice incl. helper rules) and K-run with event traces through growth. On the "
         "implementation: left-recursive families (recursive reference bare/named/grouped/behind lookahead/behind nullable "
         "rule/in optional/in loop; cycles of 2-3 rules entered at any member, one member also self-recursive; helpers inside "
         "cycles) x all inputs up to length 5-6: accepted language vs the regular language denoted, vs the right-iterative/"
